@@ -15,7 +15,16 @@ with open(inline.PINNED, "w") as fh:
 print("pinned fns:", len(fx["fns"]))
 
 # signatures of the non-public functions: a function that was merely renamed is recognised by them (sa/inline.py rename_private)
-sig = {p: dict(inputs=f.get("inputs"), output=f.get("output"), kind=f.get("kind")) for p, f in fx["fns"].items()
+def _pnames(f):
+    out = []
+    for q in f.get("params") or []:
+        while q is not None and q.get("k") in ("ref", "deref"):
+            q = q["p"]
+        out.append(q.get("name") if q is not None and q.get("k") == "bind" else None)
+    return out
+
+
+sig = {p: dict(inputs=f.get("inputs"), output=f.get("output"), kind=f.get("kind"), params=_pnames(f)) for p, f in fx["fns"].items()
        if f.get("vis") != "Public" and not p.startswith("<") and "tests::" not in p and f.get("body") is not None}
 with open(inline.PINNED_PRIVATE, "w") as fh:
     json.dump(sig, fh, indent=0, sort_keys=True)
